@@ -357,6 +357,19 @@ IMAGE_DAMAGE = {"zerohdr": lambda d: d[:12] + b"\0" * 30 + d[42:],          # di
                 "empty": lambda d: b""}
 
 
+def corrupt_members(data: bytes, names) -> bytes:
+    """Flip one byte in the stored data of the named ZIP members (the member's CRC no longer matches)."""
+    import struct
+    import zipfile
+    b = bytearray(data)
+    with zipfile.ZipFile(io.BytesIO(data)) as z:
+        for i in z.infolist():
+            if i.filename in names and i.compress_size > 0:
+                nlen, elen = struct.unpack("<HH", data[i.header_offset + 26:i.header_offset + 30])
+                b[i.header_offset + 30 + nlen + elen + i.compress_size // 2] ^= 0x5A
+    return bytes(b)
+
+
 def damage_images(doc, how):
     """A well-formed container whose picture payloads are not (recognisable) images: accepted input."""
     for i in doc_images(doc):
@@ -418,6 +431,8 @@ def run_job(job):
             data = render(job["doc"], job["fmt"])
         else:
             data = Path(job["file"]).read_bytes()
+        if job.get("badcrc"):
+            data = corrupt_members(data, set(job["badcrc"]))
         if job.get("mut") is not None:
             mk, data = mutate(data, random.Random(job["mut"]))
             out["msg"] = mk
